@@ -20,37 +20,37 @@ theorem mem_of_getElem?_array {t : Array Nat} {i c : Nat} (h : t[i]? = some c) :
 
 theorem encLoop_tokAll (P : Nat → Prop) (S : UInt64 → List Nat) (mm : Nat) (hmm : lzHashingStep ≤ mm)
     (refP : Array Nat) (refLen : Nat) (t : Array Nat) (hP : ∀ c, c ∈ t.toList → P c)
-    (i pred npl : Nat) (toks : List Tok) (esz : Nat) (xprev : Option UInt64) (res : List Tok)
+    (i pred npl : Nat) (toks : List Tok) (xprev : Option UInt64) (res : List Tok)
     (htoks : ∀ x, x ∈ toks → TokAll mm P x)
-    (hres : encLoop S mm hmm refP refLen t i pred npl toks esz xprev = some res) :
+    (hres : encLoop S mm hmm refP refLen t i pred npl toks xprev = some res) :
     ∀ x, x ∈ res → TokAll mm P x := by
-  fun_induction encLoop S mm hmm refP refLen t i pred npl toks esz xprev with
-  | case1 i pred npl toks esz xprev hlt hx => cases hres
-  | case2 i pred npl toks esz xprev hlt hx hn ih =>
+  fun_induction encLoop S mm hmm refP refLen t i pred npl toks xprev with
+  | case1 i pred npl toks xprev hlt hx => cases hres
+  | case2 i pred npl toks xprev hlt hx hn ih =>
     refine ih ?_ hres
     intro x hx'
     simp only [List.mem_cons] at hx'
     rcases hx' with rfl | hx'
     · exact hn
     · exact htoks x hx'
-  | case3 i pred npl toks esz xprev hlt hx hn hc => cases hres
-  | case4 i pred npl toks esz xprev hlt hx hn c hc ih =>
+  | case3 i pred npl toks xprev hlt hx hn hc => cases hres
+  | case4 i pred npl toks xprev hlt hx hn c hc ih =>
     refine ih ?_ hres
     intro x hx'
     simp only [List.mem_cons] at hx'
     rcases hx' with rfl | hx'
     · exact hP c (mem_of_getElem?_array hc)
     · exact htoks x hx'
-  | case5 i pred npl toks esz xprev hlt code hx hf => cases hres
-  | case6 i pred npl toks esz xprev hlt code hx hf hc => cases hres
-  | case7 i pred npl toks esz xprev hlt code hx hf c hc ih =>
+  | case5 i pred npl toks xprev hlt code hx hf => cases hres
+  | case6 i pred npl toks xprev hlt code hx hf hc => cases hres
+  | case7 i pred npl toks xprev hlt code hx hf c hc ih =>
     refine ih ?_ hres
     intro x hx'
     simp only [List.mem_cons] at hx'
     rcases hx' with rfl | hx'
     · exact hP c (mem_of_getElem?_array hc)
     · exact htoks x hx'
-  | case8 i pred npl toks esz xprev hlt code hx mpos bck fwd hf i' pred' toks' esz' total amp tok toks'' ih =>
+  | case8 i pred npl toks xprev hlt code hx mpos bck fwd hf i' pred' toks' total amp tok toks'' ih =>
     refine ih ?_ hres
     intro x hx'
     simp only [List.mem_cons] at hx'
@@ -64,7 +64,7 @@ theorem encLoop_tokAll (P : Nat → Prop) (S : UInt64 → List Nat) (mm : Nat) (
     · rcases rewriteBang_mem _ _ _ _ _ x hx' with rfl | hm
       · exact True.intro
       · exact htoks x (List.mem_of_mem_drop hm)
-  | case9 i pred npl toks esz xprev hlt =>
+  | case9 i pred npl toks xprev hlt =>
     simp only [Option.some.injEq] at hres
     subst hres
     intro x hx'
@@ -79,20 +79,20 @@ theorem encLoop_tokAll (P : Nat → Prop) (S : UInt64 → List Nat) (mm : Nat) (
     there is still input. -/
 theorem encLoop_ne_nil (S : UInt64 → List Nat) (mm : Nat) (hmm : lzHashingStep ≤ mm)
     (refP : Array Nat) (refLen : Nat) (t : Array Nat)
-    (i pred npl : Nat) (toks : List Tok) (esz : Nat) (xprev : Option UInt64) (res : List Tok)
+    (i pred npl : Nat) (toks : List Tok) (xprev : Option UInt64) (res : List Tok)
     (h : toks ≠ [] ∨ i < t.size)
-    (hres : encLoop S mm hmm refP refLen t i pred npl toks esz xprev = some res) : res ≠ [] := by
-  fun_induction encLoop S mm hmm refP refLen t i pred npl toks esz xprev with
-  | case1 i pred npl toks esz xprev hlt hx => cases hres
-  | case2 i pred npl toks esz xprev hlt hx hn ih => exact ih (Or.inl (by simp)) hres
-  | case3 i pred npl toks esz xprev hlt hx hn hc => cases hres
-  | case4 i pred npl toks esz xprev hlt hx hn c hc ih => exact ih (Or.inl (by simp)) hres
-  | case5 i pred npl toks esz xprev hlt code hx hf => cases hres
-  | case6 i pred npl toks esz xprev hlt code hx hf hc => cases hres
-  | case7 i pred npl toks esz xprev hlt code hx hf c hc ih => exact ih (Or.inl (by simp)) hres
-  | case8 i pred npl toks esz xprev hlt code hx mpos bck fwd hf i' pred' toks' esz' total amp tok toks'' ih =>
+    (hres : encLoop S mm hmm refP refLen t i pred npl toks xprev = some res) : res ≠ [] := by
+  fun_induction encLoop S mm hmm refP refLen t i pred npl toks xprev with
+  | case1 i pred npl toks xprev hlt hx => cases hres
+  | case2 i pred npl toks xprev hlt hx hn ih => exact ih (Or.inl (by simp)) hres
+  | case3 i pred npl toks xprev hlt hx hn hc => cases hres
+  | case4 i pred npl toks xprev hlt hx hn c hc ih => exact ih (Or.inl (by simp)) hres
+  | case5 i pred npl toks xprev hlt code hx hf => cases hres
+  | case6 i pred npl toks xprev hlt code hx hf hc => cases hres
+  | case7 i pred npl toks xprev hlt code hx hf c hc ih => exact ih (Or.inl (by simp)) hres
+  | case8 i pred npl toks xprev hlt code hx mpos bck fwd hf i' pred' toks' total amp tok toks'' ih =>
     exact ih (Or.inl (by simp)) hres
-  | case9 i pred npl toks esz xprev hlt =>
+  | case9 i pred npl toks xprev hlt =>
     simp only [Option.some.injEq] at hres
     subst hres
     unfold tailLits
@@ -105,6 +105,21 @@ theorem encLoop_ne_nil (S : UInt64 → List Nat) (mm : Nat) (hmm : lzHashingStep
       omega
 
 /-! ### serialisation -/
+
+theorem serialize_append (mm : Nat) (a b : List Tok) :
+    serialize mm (a ++ b) = serialize mm a ++ serialize mm b := by
+  induction a with
+  | nil => simp [serialize]
+  | cons x xs ih => simp [serialize, ih]
+
+/-- `encLen` is `encoded.len()`: the byte length of what has been emitted (tokens newest first). -/
+theorem encLen_eq (mm : Nat) (toks : List Tok) : encLen mm toks = (serialize mm toks.reverse).length := by
+  induction toks with
+  | nil => simp [encLen, serialize]
+  | cons x xs ih =>
+    simp only [encLen, List.reverse_cons, serialize_append, serialize, List.length_append,
+      List.append_nil, ih]
+    omega
 
 theorem serialize_eq_nil (mm : Nat) (ts : List Tok) : serialize mm ts = [] ↔ ts = [] := by
   cases ts with
